@@ -2,7 +2,7 @@
 From Oak Require Import Spec.LegacySpec Spec.LegacySpec2 Proofs.LegacyProofs Proofs.LegacyInv Proofs.LegacyHeap
   Proofs.LegacyDetach Proofs.LegacyAttach Proofs.LegacyAttach2 Proofs.LegacyAttach3 Proofs.LegacyConstruct
   Proofs.LegacyConstruct2 Proofs.LegacyDup Proofs.LegacyDup2 Proofs.LegacyHistory Proofs.LegacyFrames2
-  Proofs.LegacyReplace Proofs.LegacyRemove Proofs.LegacyRemove2 Proofs.LegacyRemoveSeq3.
+  Proofs.LegacyReplace Proofs.LegacyRemove Proofs.LegacyRemove2 Proofs.LegacyRemoveSeq3 Proofs.LegacyReplaceChild3 Proofs.LegacyReplaceChild4.
 From Coq Require Import List String Ascii ZArith Bool Arith Lia.
 Import ListNotations.
 
@@ -30,15 +30,23 @@ Section Step.
         try contradiction; [eapply inv2_step_detach; eassumption | exact HI].
     - simpl in E. destruct (op_detach true s a) as [s1 b|s1 e|] eqn:Ed; simpl in E; inversion E; subst;
         try contradiction; [eapply inv2_step_detach; eassumption | exact HI].
-    - (* replace on a parent-less receiver; ASTNodeReplaceError leaves the state alone *)
+    - (* replace on a parent-less receiver or on a node with a parent; ASTNodeReplaceError leaves the state alone *)
       destruct ob as [|b|r|o made|e|]; try contradiction.
-      + destruct G as [Hp [Hk HG]]. eapply inv2_step_replace_root; eassumption.
+      + destruct G as [[Hp [Hk HG]]|[p [Hp [Hn [Hk [HG [Hnp Hna]]]]]]].
+        * eapply inv2_step_replace_root; eassumption.
+        * eapply inv2_step_replace_child; eassumption.
       + destruct e; try contradiction. rewrite (replace_rejected_keys H ct _ _ _ _ E). exact HI.
       + simpl in E. destruct (op_replace H ct s a ch); simpl in E; inversion E; subst. exact HI.
     - (* replace_with(None) on a parent-less receiver; ASTNodeReplaceWithError of replace_with(None) *)
       destruct new as [n|].
       + destruct ob; try contradiction.
-        * destruct G as [Hp [Hd HG]]. eapply inv2_step_replace_with_root; eassumption.
+        * destruct G as [[Hp HG]|[p [Hp [Hn [HG Hnp]]]]].
+          -- destruct (detached (fst (step H ct s (ODetach a))) n) eqn:Hd.
+             ++ eapply inv2_step_replace_with_root; eassumption.
+             ++ eapply inv2_step_replace_with_root_attached; eassumption.
+          -- destruct (detached (fst (step H ct (clear_parent s a) (ODetach a))) n) eqn:Hd.
+             ++ eapply inv2_step_replace_with_child; eassumption.
+             ++ eapply inv2_step_replace_with_child_attached; eassumption.
         * simpl in E. destruct (op_replace_with H ct s a (Some n)); simpl in E; inversion E; subst. exact HI.
       + destruct ob as [|b|r|o made|e|]; try contradiction.
         * destruct G as [Hp|[Hl [Ha [p [f [Hp [Hpf Hn]]]]]]].
